@@ -93,12 +93,12 @@ def LegPriced (X Y fee paid recv : Nat) (exactOut : Bool) : Prop :=
 
 theorem legIn_priced {s : State} {soldD boughtD : Denom} {soldA n v : Nat} (h : LegIn s soldD soldA boughtD n v) :
     LegPriced (s.bank.balOf (poolAddr n) soldD) (s.bank.balOf (poolAddr n) boughtD) s.params.fee soldA v false :=
-  ⟨h.xpos, h.ypos, input_price_rule h.price, fun _ => exact_in_maximal h.price h.xpos h.ypos, fun e => by cases e⟩
+  ⟨h.xpos, h.ypos, input_price_rule h.price, fun _ => exact_in_maximal h.price h.xpos h.ypos, fun e => (by cases e)⟩
 
 theorem legOut_priced {s : State} {soldD boughtD : Denom} {boughtA n v : Nat} (h : LegOut s boughtD boughtA soldD n v) :
     LegPriced (s.bank.balOf (poolAddr n) soldD) (s.bank.balOf (poolAddr n) boughtD) s.params.fee v boughtA true :=
   ⟨h.xpos, Nat.lt_of_le_of_lt (Nat.zero_le _) h.ylt, output_price_rule h.price (Nat.le_of_lt h.ylt),
-    fun e => by cases e, fun _ => exact_out_within_one h.price (Nat.le_of_lt h.ylt)⟩
+    fun e => (by cases e), fun _ => exact_out_within_one h.price (Nat.le_of_lt h.ylt)⟩
 
 /-- **C01(1,2)** an accepted single-hop swap message: the amounts that actually moved (the ledger
 of C02) satisfy the constant-product rule with the configured fee on the input side against the
